@@ -4,6 +4,91 @@
 use super::*;
 use crate::verif_common::*;
 
+/// Model of core::slice::memchr::memrchr (last index of a byte) used as a Kani stub: std's word-at-a-time
+/// implementation with pointer alignment arithmetic does not get through symbolic execution.
+pub(crate) fn memrchr_model(x: u8, text: &[u8]) -> Option<usize> {
+    let mut i = text.len();
+    while i > 0 {
+        i -= 1;
+        if text[i] == x {
+            return Some(i);
+        }
+    }
+    None
+}
+
+pub(crate) fn memchr_model_root(x: u8, text: &[u8]) -> Option<usize> {
+    let mut i = 0;
+    while i < text.len() {
+        if text[i] == x {
+            return Some(i);
+        }
+        i += 1;
+    }
+    None
+}
+
+fn push_bytes(buf: &mut [u8; 16], len: &mut usize, s: &[u8]) {
+    let mut i = 0;
+    while i < s.len() {
+        buf[*len] = s[i];
+        *len += 1;
+        i += 1;
+    }
+}
+
+// @verif props=C02 tier=quick cap=900 group=core fns=defaults::default_auto_escape_callback
+/// Which templates are auto-escaped: for EVERY stem of up to 3 bytes over {'.', '/', 'a', 'h'} followed by one of
+/// the extensions .html / .htm / .xml / .txt and optionally by an ignored final extension (.j2 / .jinja /
+/// .jinja2), HTML escaping is selected iff the LAST (non-ignored) extension is html, htm or xml - however many
+/// other dots the name contains (index.en.html, v1.2/page.html, ./x.html).
+#[kani::proof]
+#[kani::unwind(18)]
+#[kani::stub(core::slice::memchr::memrchr, memrchr_model)]
+#[kani::stub(core::slice::memchr::memchr, memchr_model_root)]
+fn c02_default_auto_escape_by_last_extension() {
+    let mut buf = [0u8; 16];
+    let mut len = 0usize;
+    let stem_len: usize = kani::any();
+    kani::assume(stem_len <= 3);
+    let mut i = 0;
+    while i < 3 {
+        let c: u8 = kani::any();
+        kani::assume(c == b'.' || c == b'/' || c == b'a' || c == b'h');
+        if i < stem_len {
+            buf[len] = c;
+            len += 1;
+        }
+        i += 1;
+    }
+    let ext: u8 = kani::any();
+    kani::assume(ext < 4);
+    match ext {
+        0 => push_bytes(&mut buf, &mut len, b".html"),
+        1 => push_bytes(&mut buf, &mut len, b".htm"),
+        2 => push_bytes(&mut buf, &mut len, b".xml"),
+        _ => push_bytes(&mut buf, &mut len, b".txt"),
+    }
+    let ign: u8 = kani::any();
+    kani::assume(ign < 4);
+    match ign {
+        0 => {}
+        1 => push_bytes(&mut buf, &mut len, b".j2"),
+        2 => push_bytes(&mut buf, &mut len, b".jinja"),
+        _ => push_bytes(&mut buf, &mut len, b".jinja2"),
+    }
+    let name = unsafe { core::str::from_utf8_unchecked(&buf[..len]) };
+    let got = crate::defaults::default_auto_escape_callback(name);
+    if ext < 3 {
+        assert!(matches!(got, AutoEscape::Html));
+    } else {
+        assert!(matches!(got, AutoEscape::None));
+    }
+    kani::cover!(ext == 0 && stem_len == 3 && buf[1] == b'.' && ign == 2);
+    kani::cover!(ext == 3 && ign == 0);
+}
+
+
 #[cfg(test)]
 mod playback {
     use super::*;
